@@ -285,7 +285,7 @@ register(Contract(
             'h-same-fields': 'all(ib_plain(%s, s.graph[k]) and ib_branch(%s, s.graph[k]) %s)' % (B, B, ALLSUBS),
         }),
     },
-    cuts={'self._sync_exiting(new_block)': {
+    cuts={'self._sync_exiting(': {
         # the predecessor being processed has not been processed before; its tree of sub-graphs is as on entry
         'cur-new': 'name not in _i_seen and name in predecessors and block == old.self.graph[name]',
         'nb-same-sub': 'new_block.subregion == block.subregion and new_block.exiting == block.exiting'
